@@ -26,7 +26,7 @@ if [ $OK -eq 1 ]; then
   python3 - "$P" "$ID" "$L" "$APPLIES_HEAD" "$PASSLINE" <<'PY'
 import json, sys
 p, ident, l, ah, passline = sys.argv[1:6]
-notes = open('/verif/seeded/%s/notes.txt' % ident).read() if __import__('os').path.exists('/verif/seeded/%s/notes.txt' % ident) else ''
+notes = open('/verif/seeded/%s/notes.txt' % ident, errors='replace').read() if __import__('os').path.exists('/verif/seeded/%s/notes.txt' % ident) else ''
 meta = {
  'id': ident, 'property': p,
  'needs_to_manifest': 'see notes.txt (written by the independent sub-agent that produced the change)',
@@ -34,8 +34,8 @@ meta = {
    'by': 'tools/confirm_seed.sh in scratch worktree /tmp/mut/%s' % p,
    'compiles': True,
    'suite': passline.strip(),
-   'demo_on_unmodified': 'exit 0: ' + open(l + '/out_base.txt').read()[-300:].strip(),
-   'demo_on_patched': 'exit non-zero: ' + open(l + '/out_mut.txt').read()[-300:].strip(),
+   'demo_on_unmodified': 'exit 0: ' + open(l + '/out_base.txt', errors='replace').read()[-300:].strip(),
+   'demo_on_patched': 'exit non-zero: ' + open(l + '/out_mut.txt', errors='replace').read()[-300:].strip(),
    'patch_applies_to_repo_head': ah == '0',
  },
  'ran': ['build_lib.sh (g++ -std=c++20 -O0 -DNDEBUG, 7 TUs) on clean and patched worktree', 'demo.cpp linked against both', 'run_tests.sh (cmake/ninja/ctest pinned suite) on the patched worktree'],
